@@ -725,6 +725,9 @@ func main() {
 				tot.Outcomes["compile:hang"]++
 			case strings.HasPrefix(v.Sig, "alloc:"):
 				tot.Outcomes["compile:process-death:out-of-memory"]++
+				if tier != "thorough" && ev.Kind == "crash" {
+					tot.Outcomes["not-evaluated:remaining-feature-sets-after-process-death"] += int64(len(featureSets) - 1 - ev.F)
+				}
 				if ch.Cat == "field" && in.Fixup {
 					crashKeys[crashKey(ch.Seed, in.Field, in.Val)] = true
 				}
